@@ -299,12 +299,27 @@ Section Env.
   Definition run_unrepaired (ds : list def) : outcome table := run_from_unrepaired [] ds.
 End Env.
 
-(* ---- the final sort.Sort(h) of NewTable: routes by path, descending.  Paths of one host
-        are pairwise distinct, so the (unstable) sort has exactly one possible result. ---- *)
+(* ---- the final sort.Sort(h) of NewTable (routes.go Routes.Less, since /repo c1f03c0): routes in
+        DESCENDING order of (strings.ToLower(path), then path) -- lower-cased paths first, the raw
+        byte order only breaks ties.  Paths of one host are pairwise distinct and the order is a
+        strict total order on distinct paths, so the (unstable) sort has exactly one possible result.
+        The two-level comparison is expressed as the plain byte-string order of one key per path:
+        [path_key p] = (every byte of lower p, plus 1) ++ [0] ++ p.  The 0 is below every shifted
+        byte, so a proper prefix sorts first, exactly as for strings; when the lower-cased parts
+        are equal the raw paths decide.  Proofs.TableCmd.path_key_cmp states this equivalence.
+        (Until c1f03c0 the order was the raw byte order alone: [insert_desc_bytes] below.) ---- *)
+Definition path_key (p : str) : str := map N.succ (lower p) ++ [0] ++ p.
+Definition route_key (r : route) : str := path_key (r_path r).
 Fixpoint insert_desc (r : route) (rs : list route) : list route :=
   match rs with
   | [] => [r]
-  | x :: rs' => if str_ltb (r_path x) (r_path r) then r :: rs else x :: insert_desc r rs'
+  | x :: rs' => if str_ltb (route_key x) (route_key r) then r :: rs else x :: insert_desc r rs'
+  end.
+(* the comparator before c1f03c0 (raw byte order), kept for reference *)
+Fixpoint insert_desc_bytes (r : route) (rs : list route) : list route :=
+  match rs with
+  | [] => [r]
+  | x :: rs' => if str_ltb (r_path x) (r_path r) then r :: rs else x :: insert_desc_bytes r rs'
   end.
 Definition sort_routes (rs : list route) : list route := fold_right insert_desc [] rs.
 Definition sort_table (t : table) : table := map (fun hr => (fst hr, sort_routes (snd hr))) t.
